@@ -168,6 +168,8 @@ def shapes(t, sd):
         "arr": [["a", "array", None, [[0, 2]]]],
         "two": [["lo", "bin", [[0, 3]]], ["hi", "bin", [[4, 7]]]],
         "part": [["p", "array", 2, [[0, 5]]]],
+        "one": [["all", "bin", [[0, 7]]]],          # fully covered after a single sample: later samples must still reach the type
+        "onehalf": [["lo", "bin", [[0, 3]]]],
     }
     ns = 2 if t == "quick" else 3
     for bn, bins in base_bins.items():
